@@ -148,6 +148,7 @@ theorem all_translated_kernels_ct :
   ⟨fun _ _ env₁ env₂ => ⟨limb_leak_const _ env₁ env₂, Prog.leakW_eq_ops _ env₁⟩,
    fun _ _ _ _ o o' ins₁ ins₂ => ⟨alg_leak_const _ o o' ins₁ ins₂, AProg.leak_eq_ops o _ ins₁⟩⟩
 
+set_option maxRecDepth 20000 in
 /-- the registry is not empty and contains the kernels the property singles out -/
 theorem registry_contains_named_kernels :
     44 ≤ (Dalek.Model.Contracts.kernels.map (fun k => (k.1, k.2.1))).length ∧
